@@ -355,6 +355,15 @@ def r_check(cx, rec):
                 # variable: LEN_SIZE + length where `length` is the parameter compared with available data
                 rec.need(c == 4 and v is not None and not v.startswith('len('), 'check/%s/size' % name, f, None,
                          '%s::check returns %s%s, expected 4 + length' % (name, c, (' + ' + v) if v else ''))
+        # the guard is exactly `available >= returned size` (not > or <=): a complete message is consumed at once
+        params = [v['n'] for v in f.raw['vars'] if 'arg' in v]
+        if any('available' in p for p in params):
+            from rules import C06
+            for bi, si, oe in mirq.agg_sites(f, r'^std::result::Result$', 'Ok'):
+                g = C06.avail_guard(F, f, bi, oe[4][0][1])
+                rec.need(g, 'check/%s/guard' % name, f, bi,
+                         '%s::check does not return Ok exactly when `available_data >= size`: a complete %s already buffered is not '
+                         'consumed (or an incomplete one is)' % (name, name))
         if name != 'Handshake' and REF[name][1] is not None:
             lc = F.consts.get(ty + '::LEN')
             rec.need(lc is not None and lc.get('val') == REF[name][1], 'len-const/' + name, ty + '::LEN', None,
@@ -513,6 +522,16 @@ def r_bitfield(cx, rec):
                  'bitfield/from_vec/reversed', fv, bb, 'from_vec reverses an iterator')
     # to_vec: push(byte & MASK != 0) then byte <<= 1 ; stop at pieces_num
     pushes = [bb for bb in mirq.real_calls(tv) if tv.blocks[bb]['t'].get('name') == 'push']
+    grow = [bb for bb in mirq.real_calls(tv) if tv.blocks[bb]['t'].get('name') in ('extend', 'extend_from_slice', 'resize', 'append', 'insert', 'push_back', 'push_front', 'truncate', 'pop')]
+    rec.need(len(pushes) == 1 and not grow, 'bitfield/to_vec/extra-output', tv, None,
+             'to_vec produces output bits in %d places besides the bit test (%s): every bit must go through the same test-and-count step so that the '
+             'vector stops at pieces_num' % (len(pushes) + len(grow) - 1, [tv.blocks[b]['t'].get('name') for b in grow]))
+    # stop at pieces_num: after every push the length is compared with pieces_num before the next push
+    for pb in pushes:
+        stops = [sb for sb in tv.switches() if tv.cond(sb)[0][0] == 'binop' and tv.cond(sb)[0][1] == 'Eq' and 'pieces_num' in show(tv.cond(sb)[0]) and 'len(' in show(tv.cond(sb)[0])]
+        r = tv.reach_from(pb, cut_blocks=stops)
+        rec.need(bool(stops) and pb not in (r - {pb}) and not any(s2 for s2 in tv.succs(pb) if False), 'bitfield/to_vec/no-stop', tv, pb,
+                 'after producing a bit, to_vec can produce the next one without comparing the length with pieces_num')
     okp = False
     for bb in pushes:
         a = tv.expr_call(bb)[2][1]
